@@ -15,7 +15,7 @@ from .c18 import CountingSequence
 RULE = (
     "all histories of the bound length (invariants after every step) over the actions {attach_payload(node, P1|P2) for every node kind (leaf, "
     "unary operation relation, chain relation, materialization, transfer), iteration execute(T_i), "
-    "Processor.process(T_i)} on three trees T_1..T_3 that share one materialization node, in three scenarios "
+    "Processor.process(T_i)} on four trees T_1..T_4 (the materialization, a projection, a self-chain and a sort of it) that share one materialization node, in three scenarios "
     "(iteration-only; SQL source transferred into the iteration engine below the materialization; materialization "
     "inside the SQL engine below a transfer; SQL materialization directly above a transfer from the iteration engine); leaf payloads are instrumented; state invariants after every action: a "
     "payload slot that has been non-None keeps the identical object, attaching to a filled marker or to any non-marker "
@@ -104,9 +104,17 @@ class Scenario:
             top,
             ctx.apply(top, ("proj", ("a", "b"))),
             ctx.apply(top, ("chain", ("self",))),
+            ctx.apply(top, ("sort", ((R("c"), True), (R("b"), False)))),
         ]
         em = self.expect_m
-        self.expect = [em, [{k: r[k] for k in ("a", "b")} for r in em], em + em]
+        self.expect = [
+            em,
+            [{k: r[k] for k in ("a", "b")} for r in em],
+            em + em,
+            sorted(sorted(em, key=lambda r: -r["b"]), key=lambda r: r["c"]),
+        ]
+        # iteration-engine trees have a determined row order: compare as lists there
+        self.ordered = name in VARIANTS
         leaf = ctx.leaves["L" if "L" in ctx.leaves else "X"]
         self.nodes = {
             "leaf": leaf,
@@ -146,7 +154,7 @@ def actions(scn):
     for kind in scn.nodes:
         for which in ("P1", "P2"):
             out.append(("attach", kind, which))
-    for i in range(3):
+    for i in range(4):
         out.append(("execute", i, None))
         out.append(("process", i, None))
     return out
@@ -193,7 +201,9 @@ def run_history(scn_name, hist):
                         if name == "shared" or (hk == "materialize"):
                             mat_hooks += 1
                     got = ctx.rows_of(out)
-                if sorted(map(lambda r: sorted(r.items()), got)) != sorted(map(lambda r: sorted(r.items()), scn.expect[x])):
+                if scn.ordered and got != scn.expect[x]:
+                    problems.append(("rows", f"step {step}: {kind}(T{x + 1}) returned {got[:6]} expected (in this order) {scn.expect[x][:6]}"))
+                elif sorted(map(lambda r: sorted(r.items()), got)) != sorted(map(lambda r: sorted(r.items()), scn.expect[x])):
                     problems.append(("rows", f"step {step}: {kind}(T{x + 1}) returned {got[:6]} expected {scn.expect[x][:6]}"))
             except EngineError as e:
                 if kind == "execute":
